@@ -645,6 +645,89 @@ theorem pruned_sub (al : List Addr) (p p' : Proto) (h : pruneProto al p = some p
   obtain ⟨s, hsf, rfl⟩ := List.mem_map.mp hs'
   exact ⟨s, (List.mem_filter.mp hsf).1, rfl, rfl, fun m hm' => (List.mem_filter.mp hm').1⟩
 
+/-! ## The classes the emitted `types` modules define -/
+
+section Aux
+
+theorem mem_msgEdges_nestedEnum (api : Api) (m : Message) (x : Addr) (h : x ∈ m.nestedEnums) :
+    Edge.leaf x ∈ msgEdges api m := by
+  simp only [msgEdges, List.mem_append, List.mem_map]
+  exact Or.inl (Or.inr ⟨x, h, rfl⟩)
+
+theorem mem_msgEdges_nestedMsg (api : Api) (m : Message) (x : Addr) (h : x ∈ m.nestedMsgs) :
+    Edge.msg x ∈ msgEdges api m := by
+  simp only [msgEdges, List.mem_append, List.mem_map]
+  exact Or.inr ⟨x, h, rfl⟩
+
+theorem declared_sub (api : Api) (S : Addr → Prop)
+    (hS : ∀ a, S a → ∀ e ∈ api.succ a, S e.target) :
+    ∀ (f : Nat) (a : Addr), S a → ∀ x ∈ declared api f a, S x := by
+  intro f
+  induction f with
+  | zero => intro a ha x hx; simp [declared] at hx; exact hx ▸ ha
+  | succ f ih =>
+    intro a ha x hx
+    unfold declared at hx
+    split at hx
+    · rename_i m hm
+      have hsucc := succ_of_msg api a m hm
+      rcases List.mem_cons.mp hx with rfl | hx
+      · exact ha
+      · rcases List.mem_append.mp hx with hx | hx
+        · exact hS a ha (Edge.leaf x) (hsucc ▸ mem_msgEdges_nestedEnum api m x hx)
+        · obtain ⟨c, hc, hxc⟩ := List.mem_flatMap.mp hx
+          exact ih c (hS a ha (Edge.msg c) (hsucc ▸ mem_msgEdges_nestedMsg api m c hc)) x hxc
+    · simp at hx; exact hx ▸ ha
+
+end Aux
+
+/-- Nothing unreachable is emitted: every class the `types` module of a pruned proto defines (the
+top-level kept declarations and everything declared inside them) is on the allow-list. -/
+theorem emitted_sub_allowlist (api : Api) (listed : List (List Char)) (hwf : api.wf listed = true)
+    (p p' : Proto) (h : pruneProto (allowlist api listed) p = some p') :
+    ∀ a ∈ p'.emitted api, a ∈ allowlist api listed := by
+  obtain ⟨_, _, hm, he⟩ := pruneProto_some _ _ _ h
+  obtain ⟨_, hcl⟩ := allowlist_closed api listed hwf
+  intro a ha
+  simp only [Proto.emitted, List.mem_append, List.mem_flatMap] at ha
+  rcases ha with ⟨t, ht, hat⟩ | ha
+  · have ht' : t ∈ allowlist api listed := by
+      have := (List.mem_filter.mp ht).1
+      rw [hm] at this
+      simpa using (List.mem_filter.mp this).2
+    exact declared_sub api (· ∈ allowlist api listed) hcl _ t ht' a hat
+  · have := (List.mem_filter.mp ha).1
+    rw [he] at this
+    simpa using (List.mem_filter.mp this).2
+
+/-- A kept top-level message is emitted together with everything declared directly inside it. -/
+theorem top_message_emitted_with_children (api : Api) (p' : Proto) (m : Message)
+    (hm : api.findMsg m.addr = some m) (ht : m.addr ∈ p'.topMessages api) :
+    m.addr ∈ p'.emitted api ∧ (∀ c ∈ m.nestedMsgs, c ∈ p'.emitted api) ∧ (∀ c ∈ m.nestedEnums, c ∈ p'.emitted api) := by
+  have hlen : ∃ n, api.msgs.length = n + 1 := by
+    cases hl : api.msgs with
+    | nil => simp [Api.findMsg, hl] at hm
+    | cons x xs => exact ⟨xs.length, by simp⟩
+  obtain ⟨n, hn⟩ := hlen
+  have hd : declared api api.msgs.length m.addr = m.addr :: (m.nestedEnums ++ m.nestedMsgs.flatMap (declared api n)) := by
+    rw [hn]; simp [declared, hm]
+  have hin : ∀ x ∈ declared api api.msgs.length m.addr, x ∈ p'.emitted api := by
+    intro x hx
+    simp only [Proto.emitted, List.mem_append, List.mem_flatMap]
+    exact Or.inl ⟨m.addr, ht, hx⟩
+  refine ⟨hin _ (by rw [hd]; simp), ?_, ?_⟩
+  · intro c hc
+    apply hin
+    rw [hd]
+    refine List.mem_cons_of_mem _ (List.mem_append.mpr (Or.inr (List.mem_flatMap.mpr ⟨c, hc, ?_⟩)))
+    cases n with
+    | zero => simp [declared]
+    | succ k => unfold declared; split <;> simp
+  · intro c hc
+    apply hin
+    rw [hd]
+    exact List.mem_cons_of_mem _ (List.mem_append.mpr (Or.inl hc))
+
 /-! ## Exactly the listed RPCs (plus the polling method of an extended operation) -/
 
 /-- the methods the statement obliges the library to keep: the listed ones, and the polling method
@@ -722,6 +805,138 @@ theorem listed_service_kept (api : Api) (listed : List (List Char)) (hwf : api.w
   refine ⟨p', hp', hs', ?_⟩
   simp only [pruneService, List.mem_filter, decide_eq_true_eq]
   exact ⟨hm, hroots _ h2⟩
+
+/-! ## Services: kept exactly with their needed methods -/
+
+section Aux
+
+/-- a method edge out of a method wrapper is the polling method of the resolved operation service,
+and the service edge sits next to it -/
+theorem meth_edge_inv (p : Proto) (m : Method) (a : Addr) (h : Edge.meth a ∈ methodEdges p m) :
+    ∃ s ∈ p.services, ∃ pm ∈ s.methods, pm.addr = a ∧ Edge.leaf s.addr ∈ methodEdges p m := by
+  unfold methodEdges at h ⊢
+  simp only [List.mem_append] at h
+  rcases h with (h | h) | h
+  · split at h <;> simp at h
+  · split at h
+    · rename_i x hx
+      unfold extEdges at h
+      split at h
+      · rename_i s hs
+        have hsmem := List.mem_of_find?_eq_some hs
+        simp only [List.mem_append, List.mem_cons, List.not_mem_nil, or_false] at h
+        rcases h with (h | h) | h
+        · cases h
+        · split at h
+          · rename_i pm hpm
+            simp only [List.mem_cons, List.not_mem_nil, or_false, Edge.meth.injEq] at h
+            refine ⟨s, hsmem, pm, List.mem_of_find?_eq_some hpm, h.symm, ?_⟩
+            simp only [List.mem_append]
+            refine Or.inl (Or.inr ?_)
+            simp [extEdges, hs]
+          · cases h
+        · rcases h with h | h <;> cases h
+      · cases h
+    · cases h
+  · simp at h
+
+theorem mem_services {api : Api} {p : Proto} {s : Service} (hp : p ∈ api.protos) (hs : s ∈ p.services) :
+    s ∈ api.services :=
+  List.mem_flatMap.mpr ⟨p, hp, hs⟩
+
+end Aux
+
+/-- A needed method's service is on the allow-list, so the method really is in the pruned proto
+(`exactly_listed_rpcs` speaks about the pruned service; this says the pruned service is there). -/
+theorem needed_service_kept (api : Api) (listed : List (List Char)) (hwf : api.wf listed = true)
+    (hA : api.wfAddrs listed = true) (hSv : api.wfServices = true) (a : Addr) (h : Needed api listed a) :
+    ∀ p ∈ api.protos, ∀ s ∈ p.services, ∀ m ∈ s.methods, m.addr = a → s.addr ∈ allowlist api listed := by
+  obtain ⟨hroots, hcl⟩ := allowlist_closed api listed hwf
+  simp only [Api.wfServices, Bool.and_eq_true, List.all_eq_true, Bool.or_eq_true, bne_iff_ne, ne_eq,
+    beq_iff_eq, decide_eq_true_eq, Bool.not_eq_true'] at hSv
+  obtain ⟨⟨⟨_, _⟩, _⟩, huniq⟩ := hSv
+  induction h with
+  | @listed p0 s0 m0 hp0 hs0 hm0 hl =>
+    intro p hp s hs m hm hma
+    have h1 := (root_leaf_mem api listed p0 s0 m0 hp0 hs0 hm0 hl).1
+    have := huniq s0 (mem_services hp0 hs0) m0 hm0 s (mem_services hp hs) m hm
+    rcases this with h2 | h2
+    · exact absurd hma h2
+    · rw [h2]; exact hroots _ h1
+  | @polling p0 m0 a hp0 hm0 hn he _ =>
+    intro p hp s hs m hm hma
+    obtain ⟨s1, hs1, pm, hpm, hpma, hleaf⟩ := meth_edge_inv p0 m0 a he
+    have hm0al : m0.addr ∈ allowlist api listed := needed_kept api listed hwf hA _ hn
+    have hs1al : s1.addr ∈ allowlist api listed :=
+      hcl _ hm0al (Edge.leaf s1.addr) ((succ_of_method api listed hA p0 m0 hp0 hm0) ▸ hleaf)
+    have := huniq s1 (mem_services hp0 hs1) pm hpm s (mem_services hp hs) m hm
+    rcases this with h2 | h2
+    · exact absurd (hma.trans hpma.symm) h2
+    · rw [h2]; exact hs1al
+
+/-- Conversely a service that is kept holds at least one needed — hence kept — method: services that
+are empty after the filter are removed, and no empty client class is emitted. -/
+theorem kept_service_nonempty (api : Api) (listed : List (List Char)) (hwf : api.wf listed = true)
+    (hA : api.wfAddrs listed = true) (hSv : api.wfServices = true) (p : Proto) (s : Service)
+    (hp : p ∈ api.protos) (hs : s ∈ p.services) (h : s.addr ∈ allowlist api listed) :
+    ∃ m ∈ s.methods, Needed api listed m.addr ∧ m ∈ (pruneService (allowlist api listed) s).methods := by
+  obtain ⟨hroots, hcl⟩ := allowlist_closed api listed hwf
+  have hSv' := hSv
+  simp only [Api.wfServices, Bool.and_eq_true, List.all_eq_true, Bool.or_eq_true, bne_iff_ne, ne_eq,
+    beq_iff_eq, decide_eq_true_eq, Bool.not_eq_true', List.contains_eq_mem, decide_eq_false_iff_not] at hSv'
+  obtain ⟨⟨⟨hinj, hdisj⟩, hext⟩, _⟩ := hSv'
+  have key : ∀ a ∈ allowlist api listed,
+      a ∈ allowlist api listed ∧ ∀ s2 ∈ api.services, s2.addr = a → ∃ m ∈ s2.methods, Needed api listed m.addr := by
+    apply allowlist_least api listed
+      (fun a => a ∈ allowlist api listed ∧ ∀ s2 ∈ api.services, s2.addr = a → ∃ m ∈ s2.methods, Needed api listed m.addr)
+    · intro e he
+      refine ⟨hroots e he, ?_⟩
+      intro s2 hs2 hs2a
+      obtain ⟨p1, hp1, s1, hs1, m1, hm1, hl, hor⟩ := mem_roots api listed e he
+      rcases hor with rfl | rfl
+      · rcases hinj s2 hs2 s1 (mem_services hp1 hs1) with h1 | h1
+        · exact absurd hs2a h1
+        · exact h1 ▸ ⟨m1, hm1, Needed.listed hp1 hs1 hm1 hl⟩
+      · exfalso
+        have hmem : s2.addr ∈ api.serviceAddrs := List.mem_map.mpr ⟨s2, hs2, rfl⟩
+        exact hdisj _ hmem (hs2a ▸ List.mem_flatMap.mpr ⟨p1, hp1, List.mem_map.mpr ⟨m1, mem_methods_of_service hs1 hm1, rfl⟩⟩)
+    · intro a ha e he
+      refine ⟨hcl a ha.1 e he, ?_⟩
+      intro s2 hs2 hs2a
+      have hmem : e.target ∈ api.serviceAddrs := List.mem_map.mpr ⟨s2, hs2, hs2a⟩
+      rcases hext a (succ_mem_nodes api a e he) e he with h1 | h1
+      · exact absurd hmem h1
+      · unfold extLeafOK at h1
+        split at h1
+        · cases h1
+        · split at h1
+          · rename_i p1 m1 hfm
+            obtain ⟨hp1, hm1, hma⟩ := findMethodIn_some _ _ _ _ hfm
+            split at h1
+            · rename_i x hx
+              split at h1
+              · rename_i s1 hs1
+                simp only [Bool.and_eq_true, beq_iff_eq, Option.isSome_iff_exists] at h1
+                obtain ⟨hs1a, pm, hpm⟩ := h1
+                have hs1mem := List.mem_of_find?_eq_some hs1
+                have hamem : a ∈ api.methodAddrs :=
+                  List.mem_flatMap.mpr ⟨p1, hp1, List.mem_map.mpr ⟨m1, hm1, hma⟩⟩
+                have hn1 : Needed api listed m1.addr := hma ▸ kept_method_needed api listed hA a ha.1 hamem
+                have hedge : Edge.meth pm.addr ∈ methodEdges p1 m1 := by
+                  simp only [methodEdges, List.mem_append]
+                  refine Or.inl (Or.inr ?_)
+                  simp [hx, extEdges, hs1, hpm]
+                have hnpm : Needed api listed pm.addr := Needed.polling hp1 hm1 hn1 hedge
+                rcases hinj s2 hs2 s1 (mem_services hp1 hs1mem) with h2 | h2
+                · exact absurd (hs2a.trans hs1a.symm) h2
+                · exact h2 ▸ ⟨pm, List.mem_of_find?_eq_some hpm, hnpm⟩
+              · cases h1
+            · cases h1
+          · cases h1
+  obtain ⟨m, hm, hn⟩ := (key s.addr h).2 s (mem_services hp hs) rfl
+  refine ⟨m, hm, hn, ?_⟩
+  simp only [pruneService, List.mem_filter, decide_eq_true_eq]
+  exact ⟨hm, needed_kept api listed hwf hA _ hn⟩
 
 /-! ## The third pass: dependencies, internal marking, validation -/
 
@@ -991,14 +1206,14 @@ theorem thirdPass_internal (api : Api) (settings : List LibSettings) (pp pkg : L
 
 `exApi`: file `lib` with services `Lib` (Get, Other, Insert — an extended operation polled through
 `Ops`) and `Ops` (Poll — the polling method, Wait); messages 10 GetReq (field of nested type 11
-`Outer.Inner`, enum 20), 11 Outer.Inner, 12 Outer (declares 11 and enum 21), 13 Resp (resource
+`Outer.Inner`, enum 20 `Outer.Kind`), 11 Outer.Inner, 12 Outer (declares 11 and the enums 20, 21), 13 Resp (resource
 reference to 14), 14 Thing (recursive), 15 OtherReq (field 16), 16 Unused, 17 Operation, 18 PollReq,
 19 InsertReq; a dependency file with message 50. -/
 
 def exMsgs : List Message := [
   ⟨10, [⟨some 11, none, none⟩, ⟨none, some 20, none⟩], [], []⟩,
   ⟨11, [], [], []⟩,
-  ⟨12, [], [21], [11]⟩,
+  ⟨12, [], [20, 21], [11]⟩,
   ⟨13, [⟨none, none, some "r/T".toList⟩, ⟨some 50, none, none⟩], [], []⟩,
   ⟨14, [⟨some 14, none, none⟩], [], []⟩,
   ⟨15, [⟨some 16, none, none⟩], [], []⟩,
@@ -1024,13 +1239,16 @@ def exApi : Api := { protos := [exLib], deps := [exDep], msgs := exMsgs, resourc
 def exListed : List (List Char) := ["p.Lib.Get".toList]
 def exListedExt : List (List Char) := ["p.Lib.Insert".toList]
 
-example : exApi.wf exListed = true ∧ exApi.wfAddrs exListed = true := by decide
+example : exApi.wf exListed = true ∧ exApi.wfAddrs exListed = true ∧ exApi.wfServices = true := by decide
 example : exApi.wf exListedExt = true ∧ exApi.wfAddrs exListedExt = true := by decide
 /-- listed Get: its service, request (with the nested type and the enum), response, the resource
 message behind the reference (recursive), the dependency type — and nothing else -/
 example : allowlist exApi exListed = [50, 14, 13, 20, 11, 10, 30, 40] := by decide
 /-- listed Insert: the operation service and its polling method come along, `Wait` does not -/
 example : allowlist exApi exListedExt = [14, 19, 17, 18, 33, 41, 32, 40] := by decide
+/-- the operation service is kept with exactly its polling method (`kept_service_nonempty`, `needed_service_kept`) -/
+example : exOpsSvc.addr ∈ allowlist exApi exListedExt ∧
+    (pruneService (allowlist exApi exListedExt) exOpsSvc).methods = [exPoll] := by decide
 example : Needed exApi exListedExt 33 :=
   Needed.polling (p := exLib) (m := exInsert) (by decide) (by decide)
     (Needed.listed (p := exLib) (s := exLibSvc) (m := exInsert) (by decide) (by decide) (by decide) (by decide)) (by decide)
@@ -1059,12 +1277,21 @@ the regression theorem for the defect that has been repaired -/
 the enum `Outer.Kind`-like 20 are on the allow-list of `Get`, their enclosing message `Outer` (12) is
 not, and `Proto.messages` (top-level messages only) then has no class to hang them on — the emitted
 `types` module refers to `Outer.Inner` without defining `Outer` (known finding
-`nested-kept-parent-pruned`).  So "kept set is closed under `declared in`" is FALSE for the code. -/
+`nested-kept-parent-pruned`).  So "kept set is closed under `declared in`" is FALSE for the code
+(second theorem), and the kept nested declarations are not among the classes the `types` module
+defines (first theorem: `Proto.emitted`). -/
+theorem orphan_not_emitted_counterexample :
+    ∃ p', pruneProto (allowlist exApi exListed) exLib = some p' ∧
+      11 ∈ p'.messages ∧ 20 ∈ p'.enums ∧ 11 ∉ p'.emitted exApi ∧ 20 ∉ p'.emitted exApi ∧
+      p'.emitted exApi = [10, 13, 14] :=
+  ⟨{ exLib with services := [{ exLibSvc with methods := [exGet] }], messages := [10, 11, 13, 14], enums := [20] },
+   by decide, by decide, by decide, by decide, by decide, by decide⟩
+
 theorem nested_kept_parent_pruned_counterexample :
     ∃ (api : Api) (listed : List (List Char)) (parent : Message) (child : Addr),
       api.wf listed = true ∧ api.wfAddrs listed = true ∧ parent ∈ api.msgs ∧ child ∈ parent.nestedMsgs ∧
       child ∈ allowlist api listed ∧ parent.addr ∉ allowlist api listed :=
-  ⟨exApi, exListed, ⟨12, [], [21], [11]⟩, 11, by decide, by decide, by decide, by decide, by decide, by decide⟩
+  ⟨exApi, exListed, ⟨12, [], [20, 21], [11]⟩, 11, by decide, by decide, by decide, by decide, by decide, by decide⟩
 
 /-- Regression for the repaired defect `version-prefix-not-segment-aligned` (`fix:` a25ff42): a method
 of package `a.v1beta` listed under the settings of version `a.v1` exists in the API and shares the
